@@ -1,5 +1,6 @@
 """C18 per-module token bucket."""
 from vf.runner import Job, fl
+from vf.l2 import l2_job
 from vf.fp import core_fp, EVT_DTOR, SRC_DTOR
 
 BASE = ["Lib/core/main.c", "Lib/structs/queue.c", "Lib/structs/stack.c", "Lib/mem/mem.c", "Lib/utils/mem.c"]
@@ -94,6 +95,9 @@ def account_job(ent, pat, rate):
 
 def jobs(tier):
     js = []
+    for e in ((1, 2, 3, 5, 7, 9) if tier == 'quick' else range(15)):
+        js.append(l2_job('C18.throttle.entry%d' % e, 'l2/c18_throttle.c', defines={'ENTRY': e}, symbolic=['errno left by callbacks (int)'],
+                         bounds='whole core, bucket of 12 drained through the API, one call of entry point %d' % e, unwind=15, extra_evt=['h2']))
     pcommon = dict(sources=PERIOD_SRC, extra_harness=["common/vf_defs.c"], remove=["m_ctx"], fsa=1024, layer="l1",
                    unwind=4, fp=core_fp(mem_dtors=[], container_dtors=()), native={"sources": PERIOD_SRC},
                    noflags=["--conversion-check"], mem_gb=8)
